@@ -282,6 +282,108 @@ func msFuncLitReturns(f *goast.File, fn string) ([]string, error) {
 	return out, nil
 }
 
+// msCanonFile renames, in every function of the file, the receiver to `r`, parameters to `p0,p1,…` and
+// local variables to `l0,l1,…` (in order of declaration), so that the extracted expressions do not
+// depend on the names a programmer chose: renaming a local is not a change of shape.
+func msCanonFile(f *goast.File) {
+	for _, d := range f.AST.Decls {
+		if fd, ok := d.(*ast.FuncDecl); ok && fd.Body != nil {
+			msCanon(fd)
+		}
+	}
+}
+
+func msCanon(fd *ast.FuncDecl) {
+	names := map[string]string{}
+	np, nl := 0, 0
+	add := func(id *ast.Ident, param bool) {
+		if id == nil || id.Name == "_" {
+			return
+		}
+		if _, ok := names[id.Name]; ok {
+			return
+		}
+		if param {
+			names[id.Name] = fmt.Sprintf("p%d", np)
+			np++
+		} else {
+			names[id.Name] = fmt.Sprintf("l%d", nl)
+			nl++
+		}
+	}
+	fields := func(fl *ast.FieldList, param bool) {
+		if fl == nil {
+			return
+		}
+		for _, f := range fl.List {
+			for _, n := range f.Names {
+				add(n, param)
+			}
+		}
+	}
+	if fd.Recv != nil {
+		for _, f := range fd.Recv.List {
+			for _, n := range f.Names {
+				if n.Name != "_" {
+					names[n.Name] = "r"
+				}
+			}
+		}
+	}
+	fields(fd.Type.Params, true)
+	fields(fd.Type.Results, false)
+	ast.Inspect(fd.Body, func(n ast.Node) bool {
+		switch t := n.(type) {
+		case *ast.AssignStmt:
+			if t.Tok == token.DEFINE {
+				for _, l := range t.Lhs {
+					if id, ok := l.(*ast.Ident); ok {
+						add(id, false)
+					}
+				}
+			}
+		case *ast.ValueSpec:
+			for _, id := range t.Names {
+				add(id, false)
+			}
+		case *ast.RangeStmt:
+			if t.Tok == token.DEFINE {
+				if id, ok := t.Key.(*ast.Ident); ok {
+					add(id, false)
+				}
+				if id, ok := t.Value.(*ast.Ident); ok {
+					add(id, false)
+				}
+			}
+		case *ast.FuncLit:
+			fields(t.Type.Params, false)
+			fields(t.Type.Results, false)
+		}
+		return true
+	})
+	var walk func(n ast.Node) bool
+	walk = func(n ast.Node) bool {
+		switch t := n.(type) {
+		case *ast.SelectorExpr:
+			ast.Inspect(t.X, walk) // never the selected field/method name
+			return false
+		case *ast.KeyValueExpr:
+			if _, isIdent := t.Key.(*ast.Ident); !isIdent {
+				ast.Inspect(t.Key, walk)
+			}
+			ast.Inspect(t.Value, walk)
+			return false
+		case *ast.Ident:
+			if c, ok := names[t.Name]; ok {
+				t.Name = c
+			}
+		}
+		return true
+	}
+	ast.Inspect(fd.Body, walk)
+	ast.Inspect(fd.Type, walk)
+}
+
 type msErr struct{ err error }
 
 func (e *msErr) s(v string, err error) string {
@@ -325,6 +427,9 @@ func extractMetastore(repo string) (map[string]string, error) {
 	d2, err := parse("plugins/aws-v2/dynamodb/metastore/metastore.go")
 	if err != nil {
 		return nil, err
+	}
+	for _, f := range []*goast.File{mem, sq, d1, d2} {
+		msCanonFile(f)
 	}
 	e := &msErr{}
 	o := &msOut{}
@@ -389,11 +494,11 @@ func extractMetastore(repo string) (map[string]string, error) {
 	o.list("sqlParseEnvelopeSkeleton", e.l(msSkeleton(sq, "parseEnvelope")))
 	o.list("sqlParseEnvelopeReturns", e.l(msReturns(sq, "parseEnvelope")))
 	o.list("sqlLoadSkeleton", e.l(msSkeleton(sq, "SQLMetastore.Load")))
-	o.list("sqlLoadArgs", e.l(msCallArgs(sq, "SQLMetastore.Load", "s.db.QueryRowContext")))
+	o.list("sqlLoadArgs", e.l(msCallArgs(sq, "SQLMetastore.Load", "r.db.QueryRowContext")))
 	o.list("sqlLoadLatestSkeleton", e.l(msSkeleton(sq, "SQLMetastore.LoadLatest")))
-	o.list("sqlLoadLatestArgs", e.l(msCallArgs(sq, "SQLMetastore.LoadLatest", "s.db.QueryRowContext")))
+	o.list("sqlLoadLatestArgs", e.l(msCallArgs(sq, "SQLMetastore.LoadLatest", "r.db.QueryRowContext")))
 	o.list("sqlStoreSkeleton", e.l(msSkeleton(sq, "SQLMetastore.Store")))
-	o.list("sqlStoreArgs", e.l(msCallArgs(sq, "SQLMetastore.Store", "s.db.ExecContext")))
+	o.list("sqlStoreArgs", e.l(msCallArgs(sq, "SQLMetastore.Store", "r.db.ExecContext")))
 	o.list("sqlStoreReturns", e.l(msReturns(sq, "SQLMetastore.Store")))
 
 	// ---- the two DynamoDB metastores
